@@ -27,7 +27,7 @@
 
    ABSTRACT CONTAINERS  (stream names are tokens; the harness maps them to the real spellings:
    "DataSpaces6" = "\x06DataSpaces", "DRMContent9" = "\x09DRMContent", "CurrentUser" = "Current User")
-     [kind |-> "ooxml", wrap \in {"zip","ole"}, names \subseteq OleNames]
+     [kind |-> "ooxml", wrap \in {"zip","ole"} (fixture traces also "other"), names \subseteq OleNames]
      [kind |-> "ppt",   names \subseteq PptNames, token \in {"plain","enc","absent"}]
                          token = CurrentUserAtom.headerToken ([MS-PPT] 2.3.2: 0xE391C05F / 0xF3D1C4DF)
      [kind |-> "xls",   stream \in {"Workbook","Book","none"}, recs \in Seq(RecKinds)]
@@ -57,18 +57,24 @@
              the documentation does not decide font obfuscation.
      everywhere: WHICH non-encrypted error a broken plain container gets, and whether it yields.
 
+   CONSTANT Deviations \subseteq DeviationNames: {} = reference design (TLC proves the Inv_ invariants), {d} = as-built step d on
+   (TLC prints the counterexample).  The bounded universes and their size constants are in EncryptionGen.tla.
+
    DEVIATIONS (as-built behaviour, off in the reference design; each one is a named disjunct)
      "Odf!SubstringDetector"            is_odf_encrypted searched the manifest TEXT for substrings
      "Zip!AnyRuntimeErrorIsEncrypted"   every RuntimeError of ZipFile.read() was "encrypted"
      "SevenZ!EncryptedHeaderIsInvalid"  an AES-coded (encrypted) 7z header surfaced as Bad7zFile -> failed
      "Ppt!StreamNamesOnly"              is_ppt_encrypted never looked at CurrentUserAtom.headerToken
+     "Pdf!AesFallbackOnlyAtOpen"        the pure-Python AES fallback was installed only when PdfReader() itself
+                                        failed; an AES-128 (V4) document opens and verifies "" without AES, so
+                                        its page streams could not be decrypted (first AES document of a process)
 *)
 EXTENDS Naturals, Sequences, FiniteSets, TLC
 
 CONSTANT Deviations
 
 DeviationNames == { "Odf!SubstringDetector", "Zip!AnyRuntimeErrorIsEncrypted",
-                    "SevenZ!EncryptedHeaderIsInvalid", "Ppt!StreamNamesOnly" }
+                    "SevenZ!EncryptedHeaderIsInvalid", "Ppt!StreamNamesOnly", "Pdf!AesFallbackOnlyAtOpen" }
 ASSUME Deviations \subseteq DeviationNames
 
 Range(s) == { s[i] : i \in DOMAIN s }
@@ -321,11 +327,16 @@ Detect ==
        THEN Finish("Encrypted")
        ELSE pc' = "extract" /\ UNCHANGED <<c, k, yielded, err>>
 
-\* single-result kinds: the parse succeeds and yields one result, or fails with another error
+\* single-result kinds: the parse succeeds and yields one result, or fails with another error.
+\* An empty-password PDF is a readable document (its original extracts): it must yield.
+StreamsUndecryptable == /\ "Pdf!AesFallbackOnlyAtOpen" \in Deviations
+                        /\ c.kind = "pdf" /\ c.alg = "AES-128"
 ExtractSingle ==
     /\ pc = "extract" /\ ~MultiResult(c)
-    /\ \/ yielded' = yielded + 1 /\ pc' = "done" /\ UNCHANGED <<c, k, err>>
-       \/ Finish("Other")
+    /\ \/ /\ ~StreamsUndecryptable
+          /\ yielded' = yielded + 1 /\ pc' = "done" /\ UNCHANGED <<c, k, err>>
+       \/ /\ ~MustEqualPlain(c) \/ StreamsUndecryptable
+          /\ Finish("Other")
 
 Skip == k' = k + 1 /\ UNCHANGED <<c, pc, yielded, err>>
 
@@ -361,4 +372,5 @@ Inv_NoYieldBeforeReject == (err = "Encrypted") => (yielded = 0)
 Inv_EncryptedRejected   == (pc = "done" /\ Must(c)) => (err = "Encrypted")
 Inv_EncryptedNeverYields == Must(c) => (yielded = 0)
 Inv_PlainNeverEncrypted == MustNot(c) => (err # "Encrypted")
+Inv_EmptyPasswordExtracts == (pc = "done" /\ MustEqualPlain(c)) => (yielded = 1 /\ err = "none")
 =============================================================================
